@@ -4,7 +4,7 @@
    The same runners are evaluated by the extracted OCaml driver and by vm_compute inside Coq. *)
 Require Import Base.Bytes Gen.Tables.
 Require Import Model.Util Model.Headers Model.Methods Model.Origins Model.Netip Model.Idna
-  Model.Pattern Model.Radix Model.CfgErrors Model.Config Model.Serve Model.Mw.
+  Model.Pattern Model.Radix Model.CfgErrors Model.Config Model.Serve Model.Mw Model.Prov.
 Require Import Spec.Origins Spec.AcrhList Spec.Wire Spec.Fetch Spec.ConfigDoc Spec.DebugSM.
 Open Scope N_scope.
 Import Coq.Strings.String.StringSyntax.
@@ -492,6 +492,43 @@ Definition run_pattern (x : sx) : sx :=
     else true in
   verdict (sx_eqb m impl && (negb (impl_ok && wildfree) || Bool.eqb model_self selfmatch)) holds m.
 
+(* ---------- prov: provenance of installed slices (C12, C18) ---------- *)
+Definition enc_tag (t : ptag) : sx :=
+  match t with Own => sym "own" | ReqSlice _ => sym "req" | Shared _ => sym "shared" | CfgSlice _ => sym "cfg" end.
+
+Fixpoint tmap_insert (kv : bytes * ptag) (m : tmap) : tmap :=
+  match m with
+  | [] => [kv]
+  | kv' :: r => if bleb (fst kv) (fst kv') then kv :: m else kv' :: tmap_insert kv r
+  end.
+
+Fixpoint tags_match (model impl : list sx) : bool :=
+  match model, impl with
+  | [], [] => true
+  | SL [SB k; t] :: m', SL [SB k'; t'] :: i' =>
+      beqb k k' && (sx_eqb t t' || is_sym "any" t') && tags_match m' i'
+  | _, _ => false
+  end.
+
+Definition run_prov (x : sx) : sx :=
+  let l := get_list x in
+  let debug := get_bool (field "debug" l) in
+  let r := dec_request (field "req" l) in
+  let pre := dec_hmap (field "pre" l) in
+  let impl := get_list (field "impl" l) in
+  let impl_del := get_bool (field "delegated" impl) in
+  let impl_tags := get_list (field "tags" impl) in
+  match model_state (field "cfg" l) debug with
+  | None => verdict false true (sym "model-rejects-config")
+  | Some (st, dbg) =>
+      let '(tm, del) := pserve st dbg r pre in
+      let mt := map (fun kv => SL [SB (fst kv); enc_tag (snd kv)]) (fold_right tmap_insert [] tm) in
+      verdict (Bool.eqb del impl_del && tags_match mt impl_tags)
+              (negb impl_del ||
+               forallb (fun e => match e with SL [_; t] => negb (is_sym "shared" t) && negb (is_sym "cfg" t) | _ => false end) impl_tags)
+              (SL [sbool del; SL mt])
+  end.
+
 (* dispatcher: a case is (family id (k v)...) *)
 Definition run_case (x : sx) : sx :=
   match x with
@@ -507,6 +544,7 @@ Definition run_case (x : sx) : sx :=
         else if beqb fam (b "hist") then run_hist (SL body)
         else if beqb fam (b "roundtrip") then run_roundtrip (SL body)
         else if beqb fam (b "pattern") then run_pattern (SL body)
+        else if beqb fam (b "prov") then run_prov (SL body)
         else SL [sbool false; sbool false; sym "unknown-family"] in
       SL [id; r]
   | _ => SL [sym "bad-case"]
